@@ -281,6 +281,34 @@ fn step(st: &mut St, t: &[&str]) -> String {
             let e = cap.take().into_iter().map(|b| (false, b)).collect();
             finish(st, e)
         }
+        // a GAP under the matched writer's GUID that the writer never sent: start, base and the offsets (ascending) of the set bits
+        ["forgegap", start, base, offs] => {
+            let (Ok(start), Ok(base)) = (start.parse::<i64>(), base.parse::<i64>()) else { return "bad-op".into() };
+            let mut bits: Vec<u32> = vec![];
+            if *offs != "-" {
+                for x in offs.split(',') { let Ok(o) = x.parse::<u32>() else { return "bad-op".into() }; if o > 255 { return "bad-op".into(); } bits.push(o); }
+            }
+            if st.r.is_none() { return "bad-op".into(); }
+            let num_bits = bits.iter().map(|o| o + 1).max().unwrap_or(0);
+            let m = num_bits.div_ceil(32) as usize;
+            let mut words = vec![0u32; m];
+            for o in &bits { words[(*o / 32) as usize] |= 1 << (31 - *o % 32); }
+            let mut b: Vec<u8> = vec![b'R', b'T', b'P', b'S', 2, 4, 1, 20];
+            b.extend_from_slice(&W_PREFIX);
+            b.extend_from_slice(&[0x08, 0x01]);
+            b.extend_from_slice(&((28 + 4 * m) as u16).to_le_bytes());
+            b.extend_from_slice(&[0, 0, 2, 0x07, 0, 0, 1, 0x02]);
+            for sn in [start, base] {
+                b.extend_from_slice(&((sn >> 32) as i32).to_le_bytes());
+                b.extend_from_slice(&(sn as u32).to_le_bytes());
+            }
+            b.extend_from_slice(&num_bits.to_le_bytes());
+            for w in words { b.extend_from_slice(&w.to_le_bytes()); }
+            let cap = Cap::new();
+            reader_receive(st.r.as_mut().unwrap(), &b, &cap);
+            let e = cap.take().into_iter().map(|b| (false, b)).collect();
+            finish(st, e)
+        }
         ["flush"] => {
             if st.w.is_none() { return "bad-op".into(); }
             let mut all = vec![];
